@@ -304,7 +304,7 @@ MUTATIONS = ([("keys:" + s, m_keys(s)) for s in ["gap", "not_from_0", "dup_after
              [("general:" + s, m_general(s)) for s in ["timeout0", "auth_full", "auth_partial", "auth_split", "second_pool"]])
 
 
-BENIGN_NAMES = {"keys:plus", "keys:leading_zero", "servers:same_host_other_role", "servers:cap_role", "servers:port_edge", "servers:mirrors_in", "servers:mirrors_out",
+BENIGN_NAMES = {"keys:plus", "keys:leading_zero", "servers:same_host_other_role", "servers:cap_role", "servers:port_edge", "servers:mirrors_in",
                 "servers:mirrors_empty", "user:size_max", "user:min_eq", "user:dup_username", "user:timeout_small", "pool:ds_spelling", "pool:timeout_set", "pool:plugins_parser",
                 "pool:auto_key", "pool:regex_good", "pool:auth_full", "pool:auth_no_query", "pool:activity_ok", "pool:activity_off_zero", "general:auth_full", "general:auth_split",
                 "general:second_pool"}
@@ -582,6 +582,8 @@ CORPUS = [
     ("D4 [general] server_lifetime = 0", _G + "server_lifetime = 0\n[pools.db]\n" + _U + _S0, False),
     ("D4 user server_lifetime = 0", _G + "[pools.db]\n" + _U + "server_lifetime = 0\n" + _S0, False),
     ("server with the mirror role", _G + "[pools.db]\n" + _U + '[pools.db.shards.0]\ndatabase = "d"\nservers = [["127.0.0.1", 1, "mirror"]]\n', False),
+    ("mirror with mirroring_target_index out of range", _G + "[pools.db]\n" + _U + '[pools.db.shards.0]\ndatabase = "d"\nservers = [["127.0.0.1", 1, "primary"]]\nmirrors = [["127.0.0.1", 2, 1]]\n', False),
+    ("mirror on an existing server", _G + "[pools.db]\n" + _U + '[pools.db.shards.0]\ndatabase = "d"\nservers = [["127.0.0.1", 1, "primary"], ["127.0.0.1", 2, "replica"]]\nmirrors = [["127.0.0.1", 3, 1], ["127.0.0.1", 4, 1]]\n', True),
     ("D6 auth_query_user/password without auth_query (pool)", _G + '[pools.db]\nauth_query_user = "a"\nauth_query_password = "b"\n' + _U + _S0, True),
     ("D6 auth_query_user/password without auth_query ([general])", _G + 'auth_query_user = "a"\nauth_query_password = "b"\n[pools.db]\n' + _U + _S0, True),
     ("keys +1 and 01 spell shard 1", _G + "[pools.db]\n" + _U + _one("0", 1) + _one("+1", 2), True),
@@ -661,7 +663,7 @@ def check(run):
     quick = run.tier == "quick"
     rng = run.rng
     run.assumptions += [
-        "Coq 8.16.1 kernel + vm_compute; no axioms (Print Assumptions: closed under the global context for all 28 theorems)",
+        "Coq 8.16.1 kernel + vm_compute; no axioms (Print Assumptions: closed under the global context for all 29 theorems)",
         "coq/Config/Model.v is a hand transcription of Config/Pool/Shard/User::validate, the DefaultShard deserialiser, fill_up_auth_query_config, from_config's construction "
         "and the index operations of pool.rs/admin.rs (validated each run against the real code on the generated files)",
         "toml 0.7 + serde derive (types, required fields, Role aliases) and the regex crate's verdict on a pattern are environment: the model starts from the typed structs "
@@ -768,7 +770,7 @@ def check(run):
             second_pool(rng, c); c["general"]["connect_timeout"] = 20
         for _ in range(rng.choice([0, 0, 1])):
             name, f = rng.choice([m for m in MUTATIONS if m[0] in ("keys:plus", "keys:leading_zero", "servers:same_host_other_role", "servers:mirrors_in",
-                                                                   "servers:mirrors_out", "pool:ds_spelling", "user:dup_username", "servers:cap_role")])
+                                                                   "pool:ds_spelling", "user:dup_username", "servers:cap_role")])
             f(c, rng)
         for p in c["pools"]:
             p["connect_timeout"] = None
